@@ -138,8 +138,11 @@ def check_property(S, before, case, status, res):
         bad.append(("all inside an ellipsoid centred on a returned atom", "no returned atom is a centre containing all others"))
         return bad
     # no site twice
-    key = sorted((tuple(numpy.round(x / (1e-6 * scale))), ) for x in pos)
-    if any(key[i] == key[i + 1] for i in range(len(key) - 1)):
+    dup = False
+    if len(pos) > 1:
+        dm = numpy.abs(pos[:, None, :] - pos[None, :, :]).max(axis=2) + numpy.identity(len(pos)) * 1e9
+        dup = bool((dm < 1e-6 * scale).any())
+    if dup:
         coinc = False
         for i, p in enumerate(parents):
             for q in parents[i + 1:]:
@@ -152,7 +155,7 @@ def check_property(S, before, case, status, res):
     if all((0 <= numpy.array(p.xyz)).all() and (numpy.array(p.xyz) < 1).all() for p in parents):
         NB = numpy.array(N.lattice.base, dtype=float)
         mm = numpy.round(numpy.diag(NB.dot(RB))).astype(int)
-        have = set((getattr(g, "tag", -1),) + tuple(numpy.round(x / (1e-6 * scale))) for g, x in zip(N, pos))
+        tags = numpy.array([getattr(g, "tag", -1) for g in N])
         d_all = numpy.sqrt((((pos[:, None, :] - pos[None, :, :]) / rad) ** 2).sum(axis=2))
         centres = [i for i in range(len(pos)) if (d_all[:, i] <= 1 + MARGIN).all()]
         cx = pos[centres[0]]
@@ -163,7 +166,8 @@ def check_property(S, before, case, status, res):
                         x = pcart[tag] + i * B[0] + j * B[1] + k * B[2]
                         # present unless outside for EVERY admissible centre (the centre is not unique within the margin)
                         if all(math.sqrt((((x - pos[ci]) / rad) ** 2).sum()) < 1 - MARGIN for ci in centres):
-                            if (tag,) + tuple(numpy.round(x / (1e-6 * scale))) not in have:
+                            mine = pos[tags == tag]
+                            if len(mine) == 0 or numpy.abs(mine - x).max(axis=1).min() > 1e-6 * scale:
                                 bad.append(("complete inside the returned cell", "site of parent %d + (%d,%d,%d) is inside but missing" % (tag, i, j, k)))
                                 return bad
         del cx
@@ -280,7 +284,7 @@ def expected_list(status, res):
         return [2]
     out = [1] + [float(x) for x in res.lattice.abcABG()]
     for g in res:
-        out += [int(g.tag)] + [float(x) for x in g.xyz]
+        out += [int(getattr(g, "tag", -1))] + [float(x) for x in g.xyz]
     return out
 
 
